@@ -299,6 +299,20 @@ def _pool_entry(job):
     except HarnessError:
         raise
     except BaseException as e:  # a harness crash must not be silently dropped
+        tb = traceback.extract_tb(e.__traceback__)
+        inner = tb[-1] if tb else None
+        lib = repo_dir() + os.sep
+        if inner is not None and os.path.realpath(inner.filename).startswith(lib) and isinstance(e, Exception):
+            # The library itself raised, at a point of a scenario where the harness's script admits no
+            # exception (on the unchanged tree this never happens: every check runs to completion).  That
+            # is behaviour of the code under test, not of the machinery: report it as a violation of the
+            # property whose scenario it broke, with the place that raised, and keep what was explored.
+            where = f"{os.path.relpath(inner.filename, lib)}:{inner.name}"
+            chk.violation(f"library-raised-outside-a-judged-call|{type(e).__name__}|{where}",
+                          f"while the harness was setting up or observing a scenario (job {job!r}) the library raised "
+                          f"{type(e).__name__}: {e} at {where} line {inner.lineno}; the scenario admits no exception there",
+                          {"harness_job": repr(job)})
+            return chk.to_partial()
         raise HarnessError(
             f"worker crashed on job {job!r}: {type(e).__name__}: {e}\n"
             + traceback.format_exc()
